@@ -688,8 +688,8 @@ def d_validate( ctx ):
         res.bad( src, re_fn, endact_v, 'the requested extent must derive from the path element index and .elements', func='Logix.reply_elements' )
     # ... and is not clamped to the tag length: a request reaching past the end must stay detectable (the slice check refuses it)
     cnt_dep = any( is_cnt( y ) or ( isinstance( y, ast.Name ) and y.id in cnt_vars ) for d_ in rld.defs.get( endact_v, [] ) for y in ast.walk( d_ ))
-    explicit = [ s_ for s_, test in guards for l, op, r, c in pairs( test ) if dotted( l ) == endact_v and dotted( r ) in cnt_vars and isinstance( op, ast.LtE ) ]
-    if cnt_dep and not explicit:
+    # ( an assert `endactual <= cnt` on a clamped extent is vacuous )
+    if cnt_dep:
         d0 = rld.defs.get( endact_v, [ None ] )[0]
         res.bad( src, d0 if d0 is not None else re_fn, '%s = %s' % ( endact_v, norm_text( d0 ) if d0 is not None else '?' ),
                  'the requested extent is clamped to the tag length: a request for elements past the end of the tag is silently shortened and acknowledged instead of being refused with 0xFF/0x2105', func='Logix.reply_elements' )
